@@ -20,7 +20,8 @@ Shift(r, first) == IF r.recTime THEN 0 ELSE r.zero - first
 KF(key) == PrintT(<<"KF-HIT", key>>)
 
 (* ------------------------------- stream ------------------------------- *)
-HasNL(r) == \E i \in DOMAIN r.items : r.items[i].nl
+ViaChan(r) == "via" \in DOMAIN r /\ r.via = "chan"     \* fed from a channel (live replays): no recording file in between
+HasNL(r) == ~ViaChan(r) /\ \E i \in DOMAIN r.items : r.items[i].nl
 StreamItemOK(a, b, d) ==
     /\ b.db = a.db /\ b.rp = a.rp /\ b.name = a.name
     /\ b.tags = a.tags /\ b.fields = a.fields
@@ -49,7 +50,12 @@ FieldsOK(a, b) == Len(a) = Len(b) /\ \A i \in DOMAIN a : FieldOK(a[i], b[i])
 BPointOK(a, b, d) == b.t = a.t + d /\ b.tags = a.tags /\ FieldsOK(a.fields, b.fields)
 BatchOK(a, b, d) ==
     /\ b.name = a.name /\ b.gtags = a.gtags /\ b.byName = a.byName /\ b.dims = a.dims
-    /\ b.tmax = a.tmax + d                               \* tmax moves with the points (ConstantShift)
+    /\ \/ b.tmax = a.tmax + d                            \* tmax moves with the points (ConstantShift)
+       \/ (* known finding: replayBatchFromChan hands an EMPTY batch on with its recorded tmax, unshifted (live-time  *)
+          (* replay fed from channels; from a file empty batches never arrive).  Guard: empty batch, live-time mode,   *)
+          (* a non-zero shift - then exactly the recorded tmax is excused.                                             *)
+          /\ a.points = <<>> /\ ~rec.recTime /\ d # 0 /\ ViaChan(rec)
+          /\ b.tmax = a.tmax /\ KF("live-empty-batch-tmax-not-shifted")
     /\ Len(b.points) = Len(a.points)
     /\ \A k \in DOMAIN a.points : BPointOK(a.points[k], b.points[k], d)
 NonEmpty(items) == SelectSeq(items, LAMBDA b : b.points # <<>>)
@@ -57,12 +63,23 @@ TrOutBatch ==
     /\ IsEv("OutBatch") /\ rec.ev = "RecBatch"
     /\ Ln.err = "" /\ Ln.closed = 1
     /\ LET ne == NonEmpty(rec.items)
-           d  == IF ne = <<>> THEN 0 ELSE Shift(rec, ne[1].points[1].t)
+           svc == "base" \in DOMAIN rec
+           (* through the service (driver c18svc) every source of one recording is rebased on the earliest recorded point  *)
+           (* of the whole recording (rec.base): ONE constant shift for all sources of a replay                             *)
+           d  == IF ne = <<>> THEN 0 ELSE Shift(rec, IF svc THEN rec.base ELSE ne[1].points[1].t)
+           (* known finding: every source of a batch recording is shifted on its own (by its own first point), so two    *)
+           (* sources of one replay whose first points differ move relative to each other.  Guard: live-time replay of a   *)
+           (* recording with several sources, this source's first point is not the recording's earliest - then exactly the *)
+           (* per-source shift is excused, nothing else.                                                                     *)
+           ownGuard == svc /\ ~rec.recTime /\ rec.of > 1 /\ ne # <<>> /\ rec.own # rec.base
+           dOwn == IF ownGuard THEN Shift(rec, rec.own) ELSE d
            (* known finding: empty batches are skipped when a recording is read back *)
            exp == IF Len(ne) # Len(rec.items) /\ Len(Ln.items) = Len(ne) /\ KF("batch-empty-batch-dropped")
                     THEN ne ELSE rec.items
+           AllOK(dd) == \A i \in DOMAIN exp : BatchOK(exp[i], Ln.items[i], dd)
        IN  /\ Len(Ln.items) = Len(exp)
-           /\ \A i \in DOMAIN exp : BatchOK(exp[i], Ln.items[i], d)
+           /\ \/ AllOK(d)
+              \/ ownGuard /\ AllOK(dOwn) /\ KF("batch-sources-shifted-independently")
     /\ rec' = None
 
 TrNext == TrReset \/ TrRec \/ TrOutStream \/ TrOutBatch
